@@ -16,7 +16,8 @@ if not ok:
 dst = os.path.join("/verif/seeded", sid)
 os.makedirs(dst, exist_ok=True)
 for f in ("patch.diff", "demo.py"):
-    shutil.copy(os.path.join(src, f), os.path.join(dst, f))
+    if os.path.realpath(os.path.join(src, f)) != os.path.realpath(os.path.join(dst, f)):
+        shutil.copy(os.path.join(src, f), os.path.join(dst, f))
 meta = json.load(open(os.path.join(src, "meta.json")))
 meta["verified"] = {"ran": "tools/seed_verify.sh (scratch copy of /repo at the current HEAD): demo on original rc=0, demo with patch rc=%s, "
                             "baseline pytest with patch: %s passed / 0 failed; quick checks run: %s" % (m.group(2), tests.group(1), " ".join(checks) or "all"),
